@@ -65,12 +65,19 @@ def run(ck: Check) -> None:
             except Exception as e:
                 ck.violation("library signing failed", {"error": repr(e)}, "own-sign-failed")
                 continue
+        if i % 2:
+            # the same envelope examined in the other mode first (where its raw entries are not signatures at all): what that call made of the entries is its own affair
+            own.append(Case("vsignable", [env, auth, 1, True], tag="own-signed-other-mode-first", group=20000 + i, meta={"signers": len(ks), "thr": 1}))
         for t in {1, len(ks)}:
             own.append(Case("vsignable", [env, auth, t, False], tag="own-signed" + ("-after-edit" if i % 3 == 0 else ""), group=20000 + i, meta={"signers": len(ks), "thr": t}))
     res = ck.run_cases(own, "corr:verify_signable/outcome-class")
     for r in res:
         ck.oracle_checks += 1
         ck.nontrivial_add(("own", r.case.group, r.case.meta["thr"]))
+        if r.case.tag == "own-signed-other-mode-first":
+            if r.impl != "E SignatureError":
+                ck.violation("raw signatures counted in OpenPGP mode", {"impl": r.impl}, "own-signed-gpg-mode:" + r.impl)
+            continue
         if r.impl != "OK":
             ck.violation("an envelope signed by the library's own sign_signable does not verify under the signers' keys",
                          {"request": "vsignable " + proto.enc(r.case.args[0])[:1200], "threshold": r.case.meta["thr"], "impl": r.impl}, "own-signed:" + r.impl)
